@@ -317,107 +317,6 @@ func lemmaC13_max_payload_CN779(rep bool, ver, rev string, i int) {
 	_ = p
 }
 
-// ---------------------------------------------------------------------------- CN470
-// C12: every accepted (uplink DR, RX1 offset) gives a data-rate that is defined for downlink;
-// negative / too large arguments give an error (the accessors are total: safety obligations)
-func lemmaC12_rx1_closed_CN470(rep bool, dr, off int) {
-	b, _ := newCN470Band(rep)
-	r, err := b.GetRX1DataRateIndex(dr, off)
-	if err != nil {
-		return
-	}
-	d, err2 := b.GetDataRate(r)
-	verifAssert(err2 == nil, "rx1-defined")
-	verifAssert(err2 != nil || d.downlink, "rx1-downlink")
-	up, err3 := b.GetDataRate(dr)
-	verifAssert(err3 == nil && up.uplink, "rx1-uplink-dr")
-}
-
-// C12: over the region's positive offsets the RX1 data-rate never increases and moves down by at most one step
-func lemmaC12_rx1_monotone_CN470(rep bool, dr, off int) {
-	verifAssume(off >= 0 && off < 5)
-	b, _ := newCN470Band(rep)
-	r0, err0 := b.GetRX1DataRateIndex(dr, off)
-	r1, err1 := b.GetRX1DataRateIndex(dr, off+1)
-	if err0 != nil || err1 != nil {
-		return
-	}
-	verifAssert(r1 <= r0, "rx1-nonincreasing")
-	verifAssert(r1 >= r0-1, "rx1-one-step")
-}
-
-// C12: RX1 channel index and RX1 frequency denote the same existing downlink channel
-func lemmaC12_rx1_channel_CN470(rep bool, i int) {
-	b, _ := newCN470Band(rep)
-	up, err := b.GetUplinkChannel(i)
-	if err != nil {
-		return
-	}
-	j, err1 := b.GetRX1ChannelIndexForUplinkChannelIndex(i)
-	verifAssert(err1 == nil, "rx1-channel-ok")
-	down, err2 := b.GetDownlinkChannel(j)
-	verifAssert(err2 == nil, "rx1-channel-exists")
-	f, err3 := b.GetRX1FrequencyForUplinkFrequency(up.Frequency)
-	verifAssert(err3 == nil && err2 == nil && f == down.Frequency, "rx1-frequency-agrees")
-}
-
-// C13: channel data-rate ranges, the RX2 default and RX1 results are defined data-rates
-func lemmaC13_channel_drs_CN470(rep bool, i int) {
-	b, _ := newCN470Band(rep)
-	c, err := b.GetUplinkChannel(i)
-	if err != nil {
-		return
-	}
-	lo, e1 := b.GetDataRate(c.MinDR)
-	hi, e2 := b.GetDataRate(c.MaxDR)
-	verifAssert(e1 == nil && e2 == nil && lo.uplink && hi.uplink, "channel-dr-defined")
-	verifAssert(c.MinDR <= c.MaxDR, "channel-dr-ordered")
-	rx2, e3 := b.GetDataRate(b.GetDefaults().RX2DataRate)
-	verifAssert(e3 == nil && rx2.downlink, "rx2-dr-defined")
-}
-
-// C13: a defined data-rate looked up by its parameters (in a direction it supports) gives the same index;
-// distinct defined data-rates of one direction have distinct parameters (so the map iteration order is irrelevant)
-func lemmaC13_dr_index_CN470(rep bool, i, j int) {
-	b, _ := newCN470Band(rep)
-	d, err := b.GetDataRate(i)
-	if err != nil {
-		return
-	}
-	if d.uplink {
-		k, e := b.GetDataRateIndex(true, d)
-		verifAssert(e == nil && k == i, "dr-index-uplink")
-	}
-	if d.downlink {
-		k, e := b.GetDataRateIndex(false, d)
-		verifAssert(e == nil && k == i, "dr-index-downlink")
-	}
-	d2, err2 := b.GetDataRate(j)
-	if err2 != nil || i == j {
-		return
-	}
-	same := d.Modulation == d2.Modulation && d.Bandwidth == d2.Bandwidth && d.BitRate == d2.BitRate && d.SpreadFactor == d2.SpreadFactor && d.OccupiedChannelWidth == d2.OccupiedChannelWidth && d.CodingRate == d2.CodingRate
-	verifAssert(!(same && d.uplink && d2.uplink), "dr-unique-uplink")
-	verifAssert(!(same && d.downlink && d2.downlink), "dr-unique-downlink")
-}
-
-// C13: under the fallback ("latest") revision every defined data-rate has a maximum payload size (unknown
-// version / revision strings resolve to it), M = N + 8, N <= 242, and repeater sizes never exceed the others
-func lemmaC13_max_payload_CN470(rep bool, ver, rev string, i int) {
-	b, _ := newCN470Band(rep)
-	_, err := b.GetDataRate(i)
-	if err != nil {
-		return
-	}
-	p, e := b.GetMaxPayloadSizeForDataRateIndex("not-a-version", "not-a-revision", i)
-	verifAssert(e == nil, "latest-has-entry")
-	q, e2 := b.GetMaxPayloadSizeForDataRateIndex(ver, rev, i)
-	if e2 == nil {
-		verifAssert((q.M == q.N+8 && q.N <= 242) || (q.M == 0 && q.N == 0), "size-shape")
-	}
-	_ = p
-}
-
 // ---------------------------------------------------------------------------- IN865
 // C12: every accepted (uplink DR, RX1 offset) gives a data-rate that is defined for downlink;
 // negative / too large arguments give an error (the accessors are total: safety obligations)
@@ -809,214 +708,6 @@ func lemmaC13_dr_index_ISM2400(rep bool, i, j int) {
 // version / revision strings resolve to it), M = N + 8, N <= 242, and repeater sizes never exceed the others
 func lemmaC13_max_payload_ISM2400(rep bool, ver, rev string, i int) {
 	b, _ := newISM2400Band(rep)
-	_, err := b.GetDataRate(i)
-	if err != nil {
-		return
-	}
-	p, e := b.GetMaxPayloadSizeForDataRateIndex("not-a-version", "not-a-revision", i)
-	verifAssert(e == nil, "latest-has-entry")
-	q, e2 := b.GetMaxPayloadSizeForDataRateIndex(ver, rev, i)
-	if e2 == nil {
-		verifAssert((q.M == q.N+8 && q.N <= 242) || (q.M == 0 && q.N == 0), "size-shape")
-	}
-	_ = p
-}
-
-// ---------------------------------------------------------------------------- US915
-// C12: every accepted (uplink DR, RX1 offset) gives a data-rate that is defined for downlink;
-// negative / too large arguments give an error (the accessors are total: safety obligations)
-func lemmaC12_rx1_closed_US915(rep bool, dr, off int) {
-	b, _ := newUS902Band(rep)
-	r, err := b.GetRX1DataRateIndex(dr, off)
-	if err != nil {
-		return
-	}
-	d, err2 := b.GetDataRate(r)
-	verifAssert(err2 == nil, "rx1-defined")
-	verifAssert(err2 != nil || d.downlink, "rx1-downlink")
-	up, err3 := b.GetDataRate(dr)
-	verifAssert(err3 == nil && up.uplink, "rx1-uplink-dr")
-}
-
-// C12: over the region's positive offsets the RX1 data-rate never increases and moves down by at most one step
-func lemmaC12_rx1_monotone_US915(rep bool, dr, off int) {
-	verifAssume(off >= 0 && off < 5)
-	b, _ := newUS902Band(rep)
-	r0, err0 := b.GetRX1DataRateIndex(dr, off)
-	r1, err1 := b.GetRX1DataRateIndex(dr, off+1)
-	if err0 != nil || err1 != nil {
-		return
-	}
-	verifAssert(r1 <= r0, "rx1-nonincreasing")
-	verifAssert(r1 >= r0-1, "rx1-one-step")
-}
-
-// C12: RX1 channel index and RX1 frequency denote the same existing downlink channel
-func lemmaC12_rx1_channel_US915(rep bool, i int) {
-	b, _ := newUS902Band(rep)
-	up, err := b.GetUplinkChannel(i)
-	if err != nil {
-		return
-	}
-	j, err1 := b.GetRX1ChannelIndexForUplinkChannelIndex(i)
-	verifAssert(err1 == nil, "rx1-channel-ok")
-	down, err2 := b.GetDownlinkChannel(j)
-	verifAssert(err2 == nil, "rx1-channel-exists")
-	f, err3 := b.GetRX1FrequencyForUplinkFrequency(up.Frequency)
-	verifAssert(err3 == nil && err2 == nil && f == down.Frequency, "rx1-frequency-agrees")
-}
-
-// C13: channel data-rate ranges, the RX2 default and RX1 results are defined data-rates
-func lemmaC13_channel_drs_US915(rep bool, i int) {
-	b, _ := newUS902Band(rep)
-	c, err := b.GetUplinkChannel(i)
-	if err != nil {
-		return
-	}
-	lo, e1 := b.GetDataRate(c.MinDR)
-	hi, e2 := b.GetDataRate(c.MaxDR)
-	verifAssert(e1 == nil && e2 == nil && lo.uplink && hi.uplink, "channel-dr-defined")
-	verifAssert(c.MinDR <= c.MaxDR, "channel-dr-ordered")
-	rx2, e3 := b.GetDataRate(b.GetDefaults().RX2DataRate)
-	verifAssert(e3 == nil && rx2.downlink, "rx2-dr-defined")
-}
-
-// C13: a defined data-rate looked up by its parameters (in a direction it supports) gives the same index;
-// distinct defined data-rates of one direction have distinct parameters (so the map iteration order is irrelevant)
-func lemmaC13_dr_index_US915(rep bool, i, j int) {
-	b, _ := newUS902Band(rep)
-	d, err := b.GetDataRate(i)
-	if err != nil {
-		return
-	}
-	if d.uplink {
-		k, e := b.GetDataRateIndex(true, d)
-		verifAssert(e == nil && k == i, "dr-index-uplink")
-	}
-	if d.downlink {
-		k, e := b.GetDataRateIndex(false, d)
-		verifAssert(e == nil && k == i, "dr-index-downlink")
-	}
-	d2, err2 := b.GetDataRate(j)
-	if err2 != nil || i == j {
-		return
-	}
-	same := d.Modulation == d2.Modulation && d.Bandwidth == d2.Bandwidth && d.BitRate == d2.BitRate && d.SpreadFactor == d2.SpreadFactor && d.OccupiedChannelWidth == d2.OccupiedChannelWidth && d.CodingRate == d2.CodingRate
-	verifAssert(!(same && d.uplink && d2.uplink), "dr-unique-uplink")
-	verifAssert(!(same && d.downlink && d2.downlink), "dr-unique-downlink")
-}
-
-// C13: under the fallback ("latest") revision every defined data-rate has a maximum payload size (unknown
-// version / revision strings resolve to it), M = N + 8, N <= 242, and repeater sizes never exceed the others
-func lemmaC13_max_payload_US915(rep bool, ver, rev string, i int) {
-	b, _ := newUS902Band(rep)
-	_, err := b.GetDataRate(i)
-	if err != nil {
-		return
-	}
-	p, e := b.GetMaxPayloadSizeForDataRateIndex("not-a-version", "not-a-revision", i)
-	verifAssert(e == nil, "latest-has-entry")
-	q, e2 := b.GetMaxPayloadSizeForDataRateIndex(ver, rev, i)
-	if e2 == nil {
-		verifAssert((q.M == q.N+8 && q.N <= 242) || (q.M == 0 && q.N == 0), "size-shape")
-	}
-	_ = p
-}
-
-// ---------------------------------------------------------------------------- AU915
-// C12: every accepted (uplink DR, RX1 offset) gives a data-rate that is defined for downlink;
-// negative / too large arguments give an error (the accessors are total: safety obligations)
-func lemmaC12_rx1_closed_AU915(rep bool, dt lorawan.DwellTime, dr, off int) {
-	verifAssume(dt == lorawan.DwellTimeNoLimit || dt == lorawan.DwellTime400ms)
-	b, _ := newAU915Band(rep, dt)
-	r, err := b.GetRX1DataRateIndex(dr, off)
-	if err != nil {
-		return
-	}
-	d, err2 := b.GetDataRate(r)
-	verifAssert(err2 == nil, "rx1-defined")
-	verifAssert(err2 != nil || d.downlink, "rx1-downlink")
-	up, err3 := b.GetDataRate(dr)
-	verifAssert(err3 == nil && up.uplink, "rx1-uplink-dr")
-}
-
-// C12: over the region's positive offsets the RX1 data-rate never increases and moves down by at most one step
-func lemmaC12_rx1_monotone_AU915(rep bool, dt lorawan.DwellTime, dr, off int) {
-	verifAssume(dt == lorawan.DwellTimeNoLimit || dt == lorawan.DwellTime400ms)
-	verifAssume(off >= 0 && off < 5)
-	b, _ := newAU915Band(rep, dt)
-	r0, err0 := b.GetRX1DataRateIndex(dr, off)
-	r1, err1 := b.GetRX1DataRateIndex(dr, off+1)
-	if err0 != nil || err1 != nil {
-		return
-	}
-	verifAssert(r1 <= r0, "rx1-nonincreasing")
-	verifAssert(r1 >= r0-1, "rx1-one-step")
-}
-
-// C12: RX1 channel index and RX1 frequency denote the same existing downlink channel
-func lemmaC12_rx1_channel_AU915(rep bool, dt lorawan.DwellTime, i int) {
-	verifAssume(dt == lorawan.DwellTimeNoLimit || dt == lorawan.DwellTime400ms)
-	b, _ := newAU915Band(rep, dt)
-	up, err := b.GetUplinkChannel(i)
-	if err != nil {
-		return
-	}
-	j, err1 := b.GetRX1ChannelIndexForUplinkChannelIndex(i)
-	verifAssert(err1 == nil, "rx1-channel-ok")
-	down, err2 := b.GetDownlinkChannel(j)
-	verifAssert(err2 == nil, "rx1-channel-exists")
-	f, err3 := b.GetRX1FrequencyForUplinkFrequency(up.Frequency)
-	verifAssert(err3 == nil && err2 == nil && f == down.Frequency, "rx1-frequency-agrees")
-}
-
-// C13: channel data-rate ranges, the RX2 default and RX1 results are defined data-rates
-func lemmaC13_channel_drs_AU915(rep bool, dt lorawan.DwellTime, i int) {
-	verifAssume(dt == lorawan.DwellTimeNoLimit || dt == lorawan.DwellTime400ms)
-	b, _ := newAU915Band(rep, dt)
-	c, err := b.GetUplinkChannel(i)
-	if err != nil {
-		return
-	}
-	lo, e1 := b.GetDataRate(c.MinDR)
-	hi, e2 := b.GetDataRate(c.MaxDR)
-	verifAssert(e1 == nil && e2 == nil && lo.uplink && hi.uplink, "channel-dr-defined")
-	verifAssert(c.MinDR <= c.MaxDR, "channel-dr-ordered")
-	rx2, e3 := b.GetDataRate(b.GetDefaults().RX2DataRate)
-	verifAssert(e3 == nil && rx2.downlink, "rx2-dr-defined")
-}
-
-// C13: a defined data-rate looked up by its parameters (in a direction it supports) gives the same index;
-// distinct defined data-rates of one direction have distinct parameters (so the map iteration order is irrelevant)
-func lemmaC13_dr_index_AU915(rep bool, dt lorawan.DwellTime, i, j int) {
-	verifAssume(dt == lorawan.DwellTimeNoLimit || dt == lorawan.DwellTime400ms)
-	b, _ := newAU915Band(rep, dt)
-	d, err := b.GetDataRate(i)
-	if err != nil {
-		return
-	}
-	if d.uplink {
-		k, e := b.GetDataRateIndex(true, d)
-		verifAssert(e == nil && k == i, "dr-index-uplink")
-	}
-	if d.downlink {
-		k, e := b.GetDataRateIndex(false, d)
-		verifAssert(e == nil && k == i, "dr-index-downlink")
-	}
-	d2, err2 := b.GetDataRate(j)
-	if err2 != nil || i == j {
-		return
-	}
-	same := d.Modulation == d2.Modulation && d.Bandwidth == d2.Bandwidth && d.BitRate == d2.BitRate && d.SpreadFactor == d2.SpreadFactor && d.OccupiedChannelWidth == d2.OccupiedChannelWidth && d.CodingRate == d2.CodingRate
-	verifAssert(!(same && d.uplink && d2.uplink), "dr-unique-uplink")
-	verifAssert(!(same && d.downlink && d2.downlink), "dr-unique-downlink")
-}
-
-// C13: under the fallback ("latest") revision every defined data-rate has a maximum payload size (unknown
-// version / revision strings resolve to it), M = N + 8, N <= 242, and repeater sizes never exceed the others
-func lemmaC13_max_payload_AU915(rep bool, dt lorawan.DwellTime, ver, rev string, i int) {
-	verifAssume(dt == lorawan.DwellTimeNoLimit || dt == lorawan.DwellTime400ms)
-	b, _ := newAU915Band(rep, dt)
 	_, err := b.GetDataRate(i)
 	if err != nil {
 		return
@@ -1456,41 +1147,4 @@ func lemmaC13_max_payload_AS923_4(rep bool, dt lorawan.DwellTime, ver, rev strin
 		verifAssert((q.M == q.N+8 && q.N <= 242) || (q.M == 0 && q.N == 0), "size-shape")
 	}
 	_ = p
-}
-
-// ---------------------------------------------------------------------------
-// C15 (bounded: histories of 4 AddChannel calls with arbitrary arguments on a fresh band)
-// the CFList holds exactly the first five added channels that use the band's CFList data-rate
-// range, in order, and is absent when there is none.
-// ---------------------------------------------------------------------------
-func lemmaC15_cflist_channels_EU868(f [4]uint32, lo, hi [4]int) {
-	bi, _ := newEU863Band(false)
-	b := bi.(*eu863Band)
-	b.AddChannel(f[0], lo[0], hi[0])
-	b.AddChannel(f[1], lo[1], hi[1])
-	b.AddChannel(f[2], lo[2], hi[2])
-	b.AddChannel(f[3], lo[3], hi[3])
-	var want [5]uint32
-	w := 0
-	for k := 0; k < 4; k++ {
-		if lo[k] == 0 && hi[k] == 5 {
-			want[w] = f[k]
-			w++
-		}
-	}
-	cf := b.GetCFList(LoRaWAN_1_0_2)
-	if want[0] == 0 {
-		verifAssert(cf == nil, "absent")
-		return
-	}
-	verifAssert(cf != nil, "present")
-	if cf == nil {
-		return
-	}
-	verifAssert(cf.CFListType == lorawan.CFListChannel, "type")
-	pl, ok := cf.Payload.(*lorawan.CFListChannelPayload)
-	verifAssert(ok, "payload-type")
-	if ok {
-		verifAssert(pl.Channels == want, "channels")
-	}
 }
